@@ -44,7 +44,7 @@ ASSUMPTIONS = [
     "floating segments (negative database offset) start at the end of their layout predecessor rounded up to 1 KiB (AHAB container sets) and are only supplied together with that predecessor",
     "a header block supplied shorter than its fixed format size comes back padded to that size with the fill byte (the field has no length of its own)",
     "opaque blocks never consist of fill bytes only (such a block is indistinguishable from an absent one); payload bytes are 7-bit (no container-tag look-alikes)",
-    "random application payloads carry an invalid MBI image type at every offset where an earlier-start layout would look for an MBI header; the chance behaviour of the MBI parser on such bytes is exercised by two directed witnesses instead",
+    "random payloads (applications and opaque blocks) carry an invalid MBI image type at every offset where another start offset would make the parser look for an MBI header; the chance behaviour of the MBI parser on such bytes is exercised by two directed witnesses instead",
     "an initial offset between two segment starts means the next start (documented in the init_offset setter and pinned by the repository tests)",
     "a build in which all supplied segments lie before the initial offset (empty image) is not generated",
     "parse is called with the family, revision and memory type the image was built for (no auto-detection across memory types)",
@@ -63,6 +63,7 @@ REQUIRED_COUNTERS = [
     "cli_merge",
     "cli_parse",
     "known_witness",
+    "directed_cases",
 ]
 CASE_TIMEOUT_S = 600
 WATCHDOG_S = {"quick": 3000, "thorough": 14400}
@@ -231,7 +232,15 @@ def _init_segment_flag(name: str) -> bool:
 
 
 def _payload(rng, n: int) -> bytes:
-    """n random 7-bit bytes, never all zero."""
+    """n random 7-bit bytes, never all zero.
+
+    Every word at 0x24 modulo 0x100 holds 0x7F7F7F7F.  When an image that starts at a later initial offset is parsed,
+    other start offsets are tried as well and the MBI parser is handed bytes from the middle of the application or
+    from a header block; it reads an image type at 0x24 of whatever it is given.  What it does when type / TrustZone
+    bits happen to be valid (takes the bytes for an MBI of their own, or trips an assertion) depends on chance - 0x3F
+    is no image type, so the random workload is free of that chance and two directed witnesses put a chosen word
+    there instead.
+    """
     if n <= 0:
         return b""
     b = bytearray(core.rand_bytes(rng, n))
@@ -239,24 +248,17 @@ def _payload(rng, n: int) -> bytes:
         b[i] &= 0x7F
     if b[0] == 0:
         b[0] = 0x55
+    for o in range(0x24, n - 3, 0x100):
+        b[o:o + 4] = b"\x7f\x7f\x7f\x7f"
     return bytes(b)
 
 
 def _vector_table_app(rng, n: int, base: int) -> bytes:
-    """Cortex-M shaped application: initial SP, odd reset vector inside the image.
-
-    Every word at 0x24 modulo 0x100 holds 0x7F7F7F7F: when an image that starts at a later initial offset is tried
-    against an earlier-start layout, the MBI parser is handed bytes from the middle of the application and reads
-    its image type there; what it does with a type / TrustZone field that happens to be valid (accepts the bytes as
-    an MBI of their own, or trips an assertion) depends on chance.  0x3F is no image type, so the random workload is
-    free of that chance; the two directed witnesses put a chosen word there instead.
-    """
+    """Cortex-M shaped application: initial SP, odd reset vector inside the image."""
     n = max(n, 8)
     body = bytearray(_payload(rng, n))
     body[0:4] = struct.pack("<I", 0x20002000)
     body[4:8] = struct.pack("<I", (base + 0x40) | 1)
-    for o in range(0x124, n - 3, 0x100):
-        body[o:o + 4] = b"\x7f\x7f\x7f\x7f"
     return bytes(body)
 
 
